@@ -589,6 +589,9 @@ func (m *Machine) unop(fr *frame, in *ssa.UnOp) Value {
 		if pz, ok := (*p).(Poison); ok && m.inInit == 0 {
 			m.unsupported("load of poisoned cell: " + pz.Why)
 		}
+		if bo, ok := (*p).(ByteOf); ok {
+			return m.byteOf(bo)
+		}
 		return copyVal(*p)
 	case token.ARROW:
 		ch, _ := x.(*ChanV)
@@ -679,6 +682,16 @@ func (m *Machine) sliceOp(fr *frame, in *ssa.Slice) Value {
 		nilSlice = s.Nil
 	case Ptr: // *array
 		p := m.ptrOf(s)
+		if t, isWord := (*p).(*smt.Term); isWord && t.W == 64 {
+			// (*[8]byte)(unsafe.Pointer(&word))[:] : a live little-endian byte view of the word
+			view := make([]Value, 8)
+			for i := range view {
+				view[i] = ByteOf{C: p, I: i}
+			}
+			base = view
+			length, capacity = 8, 8
+			break
+		}
 		a := (*p).(ArrayV)
 		base = a
 		length, capacity = len(a), len(a)
